@@ -27,8 +27,8 @@ def V(name, kind="unit", d=None):
 def enums(tier):
     E = []
 
-    def add(key, title, attrs, rty, variants, gdecl="", guse="", phantom=None):
-        E.append(dict(key=key, title=title, attrs=attrs, rty=rty, variants=variants, gdecl=gdecl, guse=guse))
+    def add(key, title, attrs, rty, variants, gdecl="", guse="", phantom=None, where=""):
+        E.append(dict(key=key, title=title, attrs=attrs, rty=rty, variants=variants, gdecl=gdecl, guse=guse, where=where))
 
     add("e_i16_mixed", "#[repr(i16)] enum {A=-3,B,C=7,D}", ["#[repr(i16)]"], "i16",
         [V("A", d="-3"), V("B"), V("C", d="7"), V("D")])
@@ -56,6 +56,15 @@ def enums(tier):
         [V("A", d="isize::MIN"), V("B"), V("C", d="-1"), V("D")])
     add("e_three_repr_attrs", "#[repr(C)] #[repr(i8)] #[repr(align(4))] enum {A=-1,B{x:u16},C}", ["#[repr(C)]", "#[repr(i8)]", "#[repr(align(4))]"], "i8",
         [V("A", d="-1"), V("B", "named"), V("C")])
+    add("e_width_dependent_expr", "#[repr(u8)] enum {Half = !0 >> 1, Next, Top = !0, }-like: the value of the explicit expression depends on the repr type",
+        ["#[repr(u8)]"], "u8", [V("Half", d="!0 >> 1"), V("Next"), V("Data", "tuple"), V("Top", d="!0")])
+    add("e_width_dependent_expr_u16", "#[repr(u16)] enum {Mid = !0 / 2 + 1, Next, Low = 1}", ["#[repr(u16)]"], "u16",
+        [V("Mid", d="!0 / 2 + 1"), V("Next"), V("Low", d="1")])
+    add("e_fields_then_explicit_then_implicit", "#[repr(u8)] enum {Ping, Data(u8), Ctrl = 0x10, CtrlAck, CtrlNak, More{x:u16}, Last}", ["#[repr(u8)]"], "u8",
+        [V("Ping"), V("Data", "tuple"), V("Ctrl", d="0x10"), V("CtrlAck"), V("CtrlNak"), V("More", "named"), V("Last")])
+    add("e_generic_where_trait", "#[repr(u8)] enum G<T, const N: usize> where T: Copy + Default, [u8; N]: Default {A=1,B(T,[u8;N]),C}",
+        ["#[repr(u8)]"], "u8", [V("A", d="1"), V("B", "t_arr"), V("C")], gdecl="<T, const N: usize>", guse="<u8, 3>",
+        where="where T: Copy + Default, [u8; N]: Default ")
     add("e_first_has_fields", "#[repr(i8)] enum {A(u8),B,C=-3,D{},E}", ["#[repr(i8)]"], "i8",
         [V("A", "tuple"), V("B"), V("C", d="-3"), V("D", "brace0"), V("E")])
     add("e_generic_lt_const", "#[repr(u8)] enum G<'a, const N: usize> {A=1,B(&'a [u8;N]),C}", ["#[repr(u8)]"], "u8",
@@ -91,7 +100,7 @@ def enums(tier):
 def variant_decl(v):
     name, kind, d = v
     body = {"unit": "", "tuple0": "()", "brace0": " {}", "tuple": "(u8)", "named": " { x: u16 }",
-            "ref_arr": "(&'a [u8; N])", "generic": "(T)", "ref_t": "(&'a T, [u8; N])"}[kind]
+            "ref_arr": "(&'a [u8; N])", "generic": "(T)", "ref_t": "(&'a T, [u8; N])", "t_arr": "(T, [u8; N])"}[kind]
     return "    %s%s%s," % (name, body, (" = " + d) if d else "")
 
 
@@ -114,7 +123,7 @@ use crate::common::*;
 #[derive(TryFrom)]
 #[try_from(repr)]
 %(attrs)s
-pub enum En%(g)s {
+pub enum En%(g)s %(where)s{
 %(decl)s
 }
 pub type T = En%(gu)s;
@@ -156,7 +165,7 @@ mod proofs {
 %(contract)s%(control)s
     // PLAYBACK-INSERTION-POINT
 }
-''' % dict(attrs="\n".join(e["attrs"]), g=g, gu=gu, decl=decl, rty=rty, is_fl=is_fl, none_has=none_has, rt=rt,
+''' % dict(attrs="\n".join(e["attrs"]), g=g, gu=gu, where=(e.get("where") or ""), decl=decl, rty=rty, is_fl=is_fl, none_has=none_has, rt=rt,
            contract=('''    #[kani::proof_for_contract(try_from_contract)]
     fn ob_contract() { try_from_contract(kani::any()); }
 ''' if with_contract else ""),
